@@ -9,6 +9,10 @@ NOTE = ("Trusted: the gosym executor (instruction semantics after x/tools go/ssa
 
 # id -> (claimed?, level text, design ref, reason if not claimed)
 CHECKS = {
+ "C10": (True, "Bounded model checking of if/elsif/else, unless and case through the real parser, compiler and renderer: branch count, each condition's truthiness class and the else clause are forked, payloads are solver variables, and the output is compared with a first-truthy-branch reference; laziness and if/unless duality are asserted.", "DESIGN.md §4 C10"),
+ "C11": (True, "Bounded model checking of for/tablerow/cycle/break/continue through the real pipeline: offset, limit and cols range over all 64-bit integers as solver variables, collection length and representation are forked, and output including every forloop field is compared with a reference select (reverse, skip, take).", "DESIGN.md §4 C11"),
+ "C12": (True, "Bounded model checking of assign/capture visibility and loop-variable restoration: payloads (strings with symbolic bytes, integers, booleans) are solver variables, program shapes are forked, probes after every construct are compared with the expected text, and capture(F);print is compared with F on a fragment corpus.", "DESIGN.md §4 C12"),
+ "C13": (True, "Bounded model checking of whitespace control at token level through the real parseTokens, compileNode, Render and trimWriter: presence of every trim token is a solver Boolean, text pieces and values have symbolic bytes, and the output is compared with (A) whitespace-erasure equality, (B) a reference trimmer when every hyphen faces literal text, (C) identity without hyphens.", "DESIGN.md §4 C13"),
  "C09": (True, "Bounded model checking of values.Equal/Less/Contains and the grammar's operator actions: every ordered pair of scalar kinds is forked, payloads (all integers of each width, finite floats, short strings, small arrays) are solver variables, and the documented comparison rules are asserted as a reference written from the statement.", "DESIGN.md §4 C09"),
 }
 ALL = ["C%02d" % i for i in range(1, 21)]
